@@ -512,11 +512,15 @@ Proof.
     apply forallb_forall. intros x Hx. apply Nat.eqb_eq. apply Hms. exact Hx. }
   assert (Hr2 : par s2 r = r) by exact Hr1.
   clearbody s2.
-  destruct e; try (inversion H; subst; split; assumption).
-  - inversion H; subst. split; [exact I2 | exact Hr2].
+  destruct e; cbv beta iota in H.
+  - inversion H; subst s'. split; assumption.
+  - inversion H; subst s'. split; assumption.
+  - inversion H; subst s'. split; assumption.
+  - inversion H; subst s'. split; [exact I2 | exact Hr2].
   - destruct (existsb (Nat.eqb c) ms).
     + destruct (complete_inv _ _ _ _ I2 H) as [I3 Hroots]. split; [exact I3 | apply Hroots; exact Hr2].
-    + inversion H; subst. split; assumption.
+    + inversion H; subst s'. split; assumption.
+  - inversion H; subst s'. split; assumption.
 Qed.
 
 Lemma dispatch_all_inv : forall n r sched s s', Inv n s -> par s r = r -> dispatch_all n r sched s = Ok s' ->
@@ -582,4 +586,591 @@ Proof.
   - inversion H; subst; exact I.
   - destruct (step n o s) as [s1| | | |] eqn:Hs; try discriminate.
     eapply IH; [|exact H]. eapply step_inv; eassumption.
+Qed.
+
+(* ------------------------------------------------------------------ the forest property, as the statement reads it *)
+
+(* k-th ancestor along .parent *)
+Fixpoint anc (pa : comp -> comp) (k : nat) (c : comp) : comp :=
+  match k with O => c | S k' => anc pa k' (pa c) end.
+
+(* t is the top of the tree c is in *)
+Definition top_of (s : st) (c t : comp) : Prop := par s t = t /\ exists k, anc (par s) k c = t.
+
+Definition forest (s : st) : Prop :=
+  (forall p c, kid s p c = true <-> (par s c = p /\ c <> p)) /\        (* parent and child links agree *)
+  (forall c k, anc (par s) (S k) c = c -> par s c = c) /\              (* no cycles *)
+  (forall c, top_of s c (rt s c)) /\                                   (* root = top of its tree *)
+  (forall c t, top_of s c t -> t = rt s c).
+
+Lemma inv_forest : forall n s, Inv n s -> forest s.
+Proof.
+  intros n s I. pose proof I as I'.
+  destruct I' as [Hkl Hrl Hk Hrp Hrr Hs [rk Hrk] Hpe Hca Hdl].
+  assert (Hle : forall k c, rk (anc (par s) k c) <= rk c).
+  { induction k as [|k IH]; intro c; simpl; [lia|].
+    destruct (Nat.eq_dec (par s c) c) as [E|E]; [rewrite E; apply IH|].
+    specialize (IH (par s c)). specialize (Hrk c E). lia. }
+  assert (Hrt : forall k c, rt s (anc (par s) k c) = rt s c).
+  { induction k as [|k IH]; intro c; simpl; [reflexivity|]. rewrite IH. apply Hrp. }
+  split; [exact Hk|]. split; [|split].
+  - intros c k H. destruct (Nat.eq_dec (par s c) c) as [E|E]; [exact E|].
+    exfalso. simpl in H. pose proof (Hle k (par s c)) as H1. rewrite H in H1.
+    specialize (Hrk c E). lia.
+  - intro c. split; [apply Hrr|].
+    remember (rk c) as m eqn:Hm. revert c Hm. induction m as [m IH] using lt_wf_ind. intros c Hm.
+    destruct (Nat.eq_dec (par s c) c) as [E|E].
+    + exists 0. simpl. symmetry. apply Hs. exact E.
+    + assert (Hlt : rk (par s c) < m) by (subst m; apply Hrk; exact E).
+      destruct (IH _ Hlt (par s c) eq_refl) as [k Hk']. exists (S k). simpl. rewrite Hk'. apply Hrp.
+  - intros c t [Ht [k Hk']]. rewrite <- (Hrt k c), Hk'. symmetry. apply Hs. exact Ht.
+Qed.
+
+(* the executable reading of "p outside c's subtree" used by the model's precondition *)
+Lemma inv_subtree_reading : forall n s c p, Inv n s -> par s c = c ->
+  (rt s p = c <-> desc (kid s) c p).
+Proof.
+  intros n s c p I Hc. split.
+  - intro H. rewrite <- H. eapply desc_of_root. exact I.
+  - intro H. rewrite (desc_rt _ _ _ _ _ _ _ _ I c p H). apply (i_self _ _ _ _ _ _ _ _ I). exact Hc.
+Qed.
+
+Lemma inv_pending_attached : forall n s c, Inv n s -> pend s c = true -> par s c <> c.
+Proof. intros n s c I. apply (i_pend _ _ _ _ _ _ _ _ I). Qed.
+
+(* ------------------------------------------------------------------ subtrees stay connected *)
+
+Lemma desc_cut : forall kd p c x, desc kd c x -> desc (upd2 kd p c false) c x.
+Proof.
+  intros kd p c x H.
+  apply (desc_rind kd c x H (fun z => desc (upd2 kd p c false) c z)); [apply desc_refl|].
+  intros y z _ Py Hz.
+  destruct (Nat.eq_dec z c) as [->|Nz]; [apply desc_refl|].
+  eapply desc_right; [exact Py|]. rewrite upd2_other by (right; exact Nz). exact Hz.
+Qed.
+
+(* a component that completes its unregistration takes its whole subtree with it *)
+Lemma detach_connected : forall n c s s', Inv n s -> complete n c s = Ok s' ->
+  par s' c = c /\ pend s' c = false /\ kid s' (par s c) c = false /\
+  (forall x, desc (kid s) c x ->
+     rt s' x = c /\ desc (kid s') c x /\ (x <> c -> par s' x = par s x /\ kid s' (par s x) x = kid s (par s x) x)) /\
+  (forall x, ~ desc (kid s) c x -> rt s' x = rt s x /\ par s' x = par s x).
+Proof.
+  intros n c s s' I H. destruct (complete_ok _ _ _ _ H) as [Hp Hrest].
+  assert (Hatt : par s c <> c) by (apply (i_pend _ _ _ _ _ _ _ _ I); exact Hp).
+  destruct (Hrest Hatt) as [f [Hu ->]]. proj.
+  assert (Hg : ur_spec (upd2 (kid s) (par s c) c false) c c (rt s) f).
+  { eapply upd_root_spec; [|exact Hu]. intros a b Hab.
+    destruct (Nat.eq_dec a (par s c)) as [->|Na]; destruct (Nat.eq_dec b c) as [->|Nb];
+      try (rewrite upd2_same in Hab; discriminate);
+      (rewrite upd2_other in Hab by tauto); eapply (i_kidlt _ _ _ _ _ _ _ _ I); exact Hab. }
+  split; [apply upd_same|]. split; [apply upd_same|]. split; [apply upd2_same|]. split.
+  - intros x Hd. pose proof (desc_cut _ (par s c) _ _ Hd) as Hd'.
+    split; [|split; [exact Hd'|]].
+    + destruct (Hg x) as [[_ E]|[E _]]; [exact E | contradiction].
+    + intro Nx. split; [apply upd_other; exact Nx | apply upd2_other; right; exact Nx].
+  - intros x Hn. assert (Nx : x <> c) by (intro E; subst; apply Hn; apply desc_refl).
+    split; [|apply upd_other; exact Nx].
+    destruct (Hg x) as [[D _]|[_ E]]; [|exact E].
+    exfalso. apply Hn. eapply desc_mono; [|exact D].
+    intros a b Hab. destruct (Nat.eq_dec a (par s c)) as [->|Na]; destruct (Nat.eq_dec b c) as [->|Nb];
+      try (rewrite upd2_same in Hab; discriminate); (rewrite upd2_other in Hab by tauto); exact Hab.
+Qed.
+
+(* a registered component moves with its whole subtree under the root of its new parent *)
+Lemma move_connected : forall n c p s s', Inv n s -> register n c p s = Ok s' ->
+  par s' c = p /\ kid s' p c = true /\
+  (forall x, desc (kid s) c x ->
+     rt s' x = rt s p /\ desc (kid s') c x /\ (x <> c -> par s' x = par s x /\ kid s' (par s x) x = kid s (par s x) x)) /\
+  (forall x, ~ desc (kid s) c x -> rt s' x = rt s x /\ par s' x = par s x).
+Proof.
+  intros n c p s s' I H.
+  destruct (register_ok _ _ _ _ _ H) as [Hc [Hp [Hdet [Hnp [Hout [Hcp [f [Hu ->]]]]]]]]. proj.
+  assert (Hg : ur_spec (upd2 (kid s) p c true) (rt s p) c (upd (rt s) c (rt s p)) f).
+  { eapply upd_root_spec; [|exact Hu]. intros a b Hab.
+    destruct (Nat.eq_dec a p) as [->|Na]; destruct (Nat.eq_dec b c) as [->|Nb]; try exact Hc;
+      (rewrite upd2_other in Hab by tauto); eapply (i_kidlt _ _ _ _ _ _ _ _ I); exact Hab. }
+  assert (Hm : forall a b, kid s a b = true -> upd2 (kid s) p c true a b = true).
+  { intros a b Hab. destruct (Nat.eq_dec a p) as [->|Na]; destruct (Nat.eq_dec b c) as [->|Nb];
+      try apply upd2_same; (rewrite upd2_other by tauto); exact Hab. }
+  split; [apply upd_same|]. split; [apply upd2_same|]. split.
+  - intros x Hd. pose proof (desc_mono _ _ _ _ Hm Hd) as Hd'. split; [|split; [exact Hd'|]].
+    + destruct (Hg x) as [[_ E]|[E _]]; [exact E | contradiction].
+    + intro Nx. split; [apply upd_other; exact Nx | apply upd2_other; right; exact Nx].
+  - intros x Hn. assert (Nx : x <> c) by (intro E; subst; apply Hn; apply desc_refl).
+    split; [|apply upd_other; exact Nx].
+    destruct (Hg x) as [[D E]|[_ E]].
+    + exfalso. apply Hn.
+      (* under the new links the subtree of c is still the old tree of c *)
+      assert (F : rt s x = c).
+      { apply (desc_rind _ c x D (fun z => rt s z = c)).
+        - apply (i_self _ _ _ _ _ _ _ _ I). exact Hdet.
+        - intros y z _ Hy Hz. destruct (Nat.eq_dec y p) as [->|Ny]; [congruence|].
+          rewrite upd2_other in Hz by (left; exact Ny).
+          apply (i_kid _ _ _ _ _ _ _ _ I) in Hz. destruct Hz as [Hz _].
+          rewrite <- Hz in Hy. rewrite (i_rtpar _ _ _ _ _ _ _ _ I) in Hy. exact Hy. }
+      rewrite <- F. eapply desc_of_root. exact I.
+    + rewrite E. apply upd_other. exact Nx.
+Qed.
+
+(* ------------------------------------------------------------------ queued events move to the new root *)
+
+Lemma register_queue : forall n c p s s', Inv n s -> register n c p s = Ok s' ->
+  rt s' c = rt s p /\
+  q s' (rt s p) = q s (rt s p) ++ q s c ++ [Registered c p] /\
+  q s' c = [] /\
+  (forall x, x <> c -> x <> rt s p -> q s' x = q s x).
+Proof.
+  intros n c p s s' I H.
+  destruct (move_connected _ _ _ _ _ I H) as [_ [_ [Hin _]]].
+  destruct (Hin c (desc_refl _ c)) as [Hrc _].
+  destruct (register_ok _ _ _ _ _ H) as [Hc [Hp [Hdet [Hnp [Hout [Hcp [f [Hu E]]]]]]]].
+  rewrite E in Hrc |- *. proj. proj_in Hrc. rewrite Hrc.
+  split; [reflexivity|]. split; [|split].
+  - rewrite upd_same. rewrite (upd_other _ _ c) by exact Hout. rewrite upd_same.
+    rewrite <- app_assoc. reflexivity.
+  - rewrite (upd_other _ _ (rt s p)) by (intro E'; apply Hout; symmetry; exact E'). apply upd_same.
+  - intros x N1 N2. rewrite !upd_other by assumption. reflexivity.
+Qed.
+
+(* ------------------------------------------------------------------ a flush dispatches exactly its batch *)
+
+Lemma ev_eqb_eq : forall a b, ev_eqb a b = true <-> a = b.
+Proof.
+  intros a b. split.
+  - destruct a, b; simpl; intro H; try discriminate; try reflexivity;
+      try (apply andb_prop in H; destruct H as [H1 H2]; apply Nat.eqb_eq in H1; apply Nat.eqb_eq in H2; subst; reflexivity);
+      apply Nat.eqb_eq in H; subst; reflexivity.
+  - intros ->. destruct b; simpl; rewrite ?Nat.eqb_refl; reflexivity.
+Qed.
+
+Lemma remove1_perm : forall e l l', remove1 e l = Some l' -> Permutation l (e :: l').
+Proof.
+  intros e. induction l as [|x t IH]; intros l' H; [discriminate|]. simpl in H.
+  destruct (ev_eqb e x) eqn:E.
+  - apply ev_eqb_eq in E. inversion H; subst. apply Permutation_refl.
+  - destruct (remove1 e t) as [t'|] eqn:R; [|discriminate]. inversion H; subst.
+    eapply perm_trans; [apply perm_skip; apply IH; reflexivity | apply perm_swap].
+Qed.
+
+Lemma is_perm_perm : forall sched batch, is_perm sched batch = true -> Permutation sched batch.
+Proof.
+  induction sched as [|e t IH]; intros batch H; simpl in H.
+  - destruct batch; [apply perm_nil | discriminate].
+  - destruct (remove1 e batch) as [b|] eqn:R; [|discriminate].
+    eapply perm_trans; [apply perm_skip; apply IH; exact H|].
+    apply Permutation_sym. apply remove1_perm. exact R.
+Qed.
+
+Lemma complete_disp : forall n c s s', complete n c s = Ok s' -> disp s' = disp s.
+Proof.
+  intros n c s s' H. unfold complete in H.
+  destruct (pend s c); cbn [negb] in H; [|discriminate]. proj_in H.
+  destruct (par s c =? c).
+  - destruct (upd_root _ _ _ _ _ _); [|discriminate]. inversion H. reflexivity.
+  - destruct (kid s (par s c) c); cbn [negb] in H; [|discriminate]. proj_in H.
+    destruct (upd_root _ _ _ _ _ _); [|discriminate]. inversion H. reflexivity.
+Qed.
+
+Lemma dispatch_disp : forall n r e s s', dispatch n r e s = Ok s' ->
+  exists d, disp s' = d :: disp s /\ d_root d = r /\ d_ev d = e.
+Proof.
+  intros n r e s s' H. unfold dispatch in H.
+  destruct (lookup n r e s) as [s1 ms] eqn:Hl.
+  assert (T : disp s1 = disp s).
+  { unfold lookup in Hl. destruct (dirty s r); destruct (find_key _ _); inversion Hl; reflexivity. }
+  set (d := mkd r e ms (forallb (fun x => rt s1 x =? r) ms)) in *.
+  exists d. split; [|split; reflexivity].
+  rewrite <- T.
+  destruct e; cbv beta iota in H; try (inversion H; reflexivity).
+  destruct (existsb (Nat.eqb c) ms); [|inversion H; reflexivity].
+  apply complete_disp in H. exact H.
+Qed.
+
+Lemma dispatch_all_disp : forall n r sched s s', dispatch_all n r sched s = Ok s' ->
+  exists ds, disp s' = ds ++ disp s /\ map d_ev (rev ds) = sched /\ (forall d, In d ds -> d_root d = r).
+Proof.
+  intros n r. induction sched as [|e t IH]; intros s s' H; simpl in H.
+  - inversion H; subst. exists []. split; [reflexivity | split; [reflexivity | intros d []]].
+  - destruct (dispatch n r e s) as [s1| | | |] eqn:Hd; try discriminate.
+    destruct (dispatch_disp _ _ _ _ _ Hd) as [d [E1 [E2 E3]]].
+    destruct (IH _ _ H) as [ds [F1 [F2 F3]]].
+    exists (ds ++ [d]). split; [|split].
+    + rewrite F1, E1, <- app_assoc. reflexivity.
+    + rewrite rev_app_distr. simpl. rewrite E3, F2. reflexivity.
+    + intros d' Hin. apply in_app_or in Hin. destruct Hin as [Hin|[<-|[]]]; [apply F3; exact Hin | exact E2].
+Qed.
+
+Lemma flush_dispatches_batch : forall n r sched s s', flush n r sched s = Ok s' ->
+  Permutation sched (q s r) /\
+  exists ds, disp s' = ds ++ disp s /\ map d_ev (rev ds) = sched /\ (forall d, In d ds -> d_root d = r).
+Proof.
+  intros n r sched s s' H. unfold flush in H.
+  destruct (is_perm sched (q s r)) eqn:P; [|discriminate].
+  split; [apply is_perm_perm; exact P|].
+  apply dispatch_all_disp in H. exact H.
+Qed.
+
+(* ------------------------------------------------------------------ announcements: nothing lost, nothing doubled *)
+
+Definition cnt (e : ev) (l : list ev) : nat := length (filter (ev_eqb e) l).
+Definition qsum (e : ev) (qf : comp -> list ev) (l : list comp) : nat :=
+  list_sum (map (fun x => cnt e (qf x)) l).
+(* occurrences of e in the queues of the pool *)
+Definition qcount (n : nat) (qf : comp -> list ev) (e : ev) : nat := qsum e qf (seq 0 n).
+(* dispatches of e so far *)
+Definition dcount (dl : list drec) (e : ev) : nat := length (filter (fun d => ev_eqb e (d_ev d)) dl).
+Definition cntp (c p : comp) (l : list (comp * comp)) : nat :=
+  length (filter (fun cp => (c =? fst cp) && (p =? snd cp)) l).
+Fixpoint count_reg (c p : comp) (h : list op) : nat :=
+  match h with
+  | [] => 0
+  | OReg a b :: t => (if (c =? a) && (p =? b) then 1 else 0) + count_reg c p t
+  | _ :: t => count_reg c p t
+  end.
+
+Definition isann (e : ev) : bool :=
+  match e with Registered _ _ | Unregistered _ _ => true | _ => false end.
+Definition gh (s : st) (e : ev) : nat :=
+  match e with
+  | Registered c p => cntp c p (regd s)
+  | Unregistered c p => cntp c p (unregd s)
+  | _ => 0
+  end.
+Definition tot (n : nat) (s : st) (e : ev) : nat := qcount n (q s) e + dcount (disp s) e.
+
+Lemma cnt_app : forall e a b, cnt e (a ++ b) = cnt e a + cnt e b.
+Proof. intros. unfold cnt. rewrite filter_app, app_length. reflexivity. Qed.
+
+Lemma cnt_perm : forall e a b, Permutation a b -> cnt e a = cnt e b.
+Proof.
+  intros e a b H. unfold cnt. induction H; simpl.
+  - reflexivity.
+  - destruct (ev_eqb e x); simpl; congruence.
+  - destruct (ev_eqb e x); destruct (ev_eqb e y); reflexivity.
+  - congruence.
+Qed.
+
+Lemma qsum_notin : forall e qf x v l, ~ In x l -> qsum e (upd qf x v) l = qsum e qf l.
+Proof.
+  intros e qf x v. induction l as [|y l IH]; intro H; [reflexivity|].
+  unfold qsum in *. simpl. rewrite IH by (intro; apply H; right; assumption).
+  rewrite upd_other by (intro E; apply H; left; exact E). reflexivity.
+Qed.
+
+Lemma qsum_in : forall e qf x v l, NoDup l -> In x l ->
+  qsum e (upd qf x v) l + cnt e (qf x) = qsum e qf l + cnt e v.
+Proof.
+  intros e qf x v. induction l as [|y l IH]; intros ND H; [contradiction|].
+  inversion ND as [|y' l' Hy ND']; subst.
+  unfold qsum in *. simpl. destruct H as [->|H].
+  - rewrite upd_same. pose proof (qsum_notin e qf x v l Hy) as E. unfold qsum in E. rewrite E. lia.
+  - rewrite upd_other by (intro E; subst; contradiction). specialize (IH ND' H). lia.
+Qed.
+
+Lemma qcount_upd : forall n e qf x v, x < n ->
+  qcount n (upd qf x v) e + cnt e (qf x) = qcount n qf e + cnt e v.
+Proof.
+  intros. unfold qcount. apply qsum_in; [apply seq_NoDup | apply in_seq; lia].
+Qed.
+
+Lemma qcount_upd_out : forall n e qf x v, ~ x < n -> qcount n (upd qf x v) e = qcount n qf e.
+Proof. intros. unfold qcount. apply qsum_notin. intro H1. apply in_seq in H1. lia. Qed.
+
+(* appending an event that is not e does not change the count of e *)
+Lemma qcount_enq_other : forall n e qf x e0, ev_eqb e e0 = false ->
+  qcount n (upd qf x (qf x ++ [e0])) e = qcount n qf e.
+Proof.
+  intros n e qf x e0 H. destruct (lt_dec x n) as [L|L].
+  - pose proof (qcount_upd n e qf x (qf x ++ [e0]) L) as E. rewrite cnt_app in E.
+    unfold cnt at 3 in E. simpl in E. rewrite H in E. simpl in E. lia.
+  - apply qcount_upd_out. exact L.
+Qed.
+
+Lemma qcount_enq_same : forall n e qf x, x < n ->
+  qcount n (upd qf x (qf x ++ [e])) e = qcount n qf e + 1.
+Proof.
+  intros n e qf x L. pose proof (qcount_upd n e qf x (qf x ++ [e]) L) as E. rewrite cnt_app in E.
+  unfold cnt at 3 in E. simpl in E. rewrite (proj2 (ev_eqb_eq e e) eq_refl) in E. simpl in E. lia.
+Qed.
+
+Lemma complete_regd : forall n c s s', complete n c s = Ok s' -> regd s' = regd s.
+Proof.
+  intros n c s s' H. unfold complete in H.
+  destruct (pend s c); cbn [negb] in H; [|discriminate]. proj_in H.
+  destruct (par s c =? c).
+  - destruct (upd_root _ _ _ _ _ _); [|discriminate]. inversion H. reflexivity.
+  - destruct (kid s (par s c) c); cbn [negb] in H; [|discriminate]. proj_in H.
+    destruct (upd_root _ _ _ _ _ _); [|discriminate]. inversion H. reflexivity.
+Qed.
+
+(* one dispatch, decomposed *)
+Lemma dispatch_shape : forall n r e s s', Inv n s -> par s r = r -> dispatch n r e s = Ok s' ->
+  exists s2 d, Inv n s2 /\ q s2 = q s /\ regd s2 = regd s /\ unregd s2 = unregd s /\
+    disp s2 = d :: disp s /\ d_ev d = e /\
+    match e with
+    | PrepUnreg c => s' = enq (rt s2 r) (PrepDone c) s2
+    | PrepDone c => complete n c s2 = Ok s' \/ s' = s2
+    | _ => s' = s2
+    end.
+Proof.
+  intros n r e s s' I Hr H. unfold dispatch in H.
+  destruct (lookup n r e s) as [s1 ms] eqn:Hl.
+  destruct (lookup_inv _ _ _ _ _ _ I Hr Hl) as [I1 [Hms T]].
+  destruct T as [T1 [T2 [T3 [T4 [T5 [T6 [T7 T8]]]]]]].
+  set (d := mkd r e ms (forallb (fun x => rt s1 x =? r) ms)) in *.
+  exists (set_disp s1 (d :: disp s1)), d.
+  split.
+  { unfold Inv; proj. apply invF_disp; [exact I1|]. cbn [d_ok d].
+    apply forallb_forall. intros x Hx. apply Nat.eqb_eq. apply Hms. exact Hx. }
+  proj. split; [exact T5|]. split; [exact T6|]. split; [exact T7|]. split; [rewrite T8; reflexivity|].
+  split; [reflexivity|].
+  destruct e as [i|a b|a b|a|a|]; cbv beta iota in H; try (inversion H; subst s'; reflexivity).
+  destruct (existsb (Nat.eqb a) ms); [left; exact H | right; inversion H; subst s'; reflexivity].
+Qed.
+
+Lemma dispatch_bal : forall n r e0 s s', Inv n s -> par s r = r -> dispatch n r e0 s = Ok s' ->
+  forall e, isann e = true ->
+  tot n s' e + gh s e = tot n s e + gh s' e + (if ev_eqb e e0 then 1 else 0).
+Proof.
+  intros n r e0 s s' I Hr H e A.
+  destruct (dispatch_shape _ _ _ _ _ I Hr H) as [s2 [d [I2 [Q [R [U [D [De C]]]]]]]].
+  assert (B2 : tot n s2 e = tot n s e + (if ev_eqb e e0 then 1 else 0) /\ gh s2 e = gh s e).
+  { unfold tot, gh. rewrite Q, R, U, D. split; [|reflexivity].
+    unfold dcount. simpl. rewrite De. destruct (ev_eqb e e0); simpl; lia. }
+  destruct B2 as [B2 G2].
+  assert (Same : s' = s2 -> tot n s' e + gh s e = tot n s e + gh s' e + (if ev_eqb e e0 then 1 else 0)).
+  { intros ->. lia. }
+  destruct e0; try (apply Same; exact C).
+  - (* PrepUnreg *) subst s'. unfold tot, gh in *. proj.
+    rewrite qcount_enq_other by (destruct e; simpl in A |- *; congruence). lia.
+  - (* PrepDone *) destruct C as [C|C]; [|apply Same; exact C].
+    destruct (complete_ok _ _ _ _ C) as [Hp Hrest].
+    assert (Hatt : par s2 c <> c) by (apply (i_pend _ _ _ _ _ _ _ _ I2); exact Hp).
+    destruct (Hrest Hatt) as [f [_ ->]].
+    assert (Hcn : rt s2 c < n).
+    { apply (i_rtlt _ _ _ _ _ _ _ _ I2). apply (i_kidlt _ _ _ _ _ _ _ _ I2 (par s2 c)).
+      apply (i_kid _ _ _ _ _ _ _ _ I2). split; [reflexivity | congruence]. }
+    unfold tot, gh in *. proj.
+    destruct (ev_eqb e (Unregistered c (par s2 c))) eqn:E.
+    + apply ev_eqb_eq in E. subst e. rewrite qcount_enq_same by exact Hcn.
+      unfold cntp at 2. simpl. rewrite !Nat.eqb_refl. simpl. fold (cntp c (par s2 c) (unregd s2)).
+      simpl in B2, G2 |- *. lia.
+    + rewrite qcount_enq_other by exact E.
+      destruct e as [| | a b | | |]; simpl in A; try discriminate; simpl in G2, B2 |- *; [lia|].
+      unfold cntp at 2. simpl. simpl in E. rewrite E. fold (cntp a b (unregd s2)). lia.
+Qed.
+
+Lemma dispatch_all_bal : forall n r sched s s', Inv n s -> par s r = r -> dispatch_all n r sched s = Ok s' ->
+  forall e, isann e = true -> tot n s' e + gh s e = tot n s e + gh s' e + cnt e sched.
+Proof.
+  intros n r. induction sched as [|e0 t IH]; intros s s' I Hr H e A; simpl in H.
+  - inversion H; subst. unfold cnt; simpl. lia.
+  - destruct (dispatch n r e0 s) as [s1| | | |] eqn:Hd; try discriminate.
+    destruct (dispatch_inv _ _ _ _ _ I Hr Hd) as [I1 Hr1].
+    pose proof (dispatch_bal _ _ _ _ _ I Hr Hd e A) as B1.
+    pose proof (IH _ _ I1 Hr1 H e A) as B2.
+    unfold cnt in *. simpl. destruct (ev_eqb e e0); simpl; lia.
+Qed.
+
+Definition Bal (n : nat) (s : st) : Prop := forall e, isann e = true -> tot n s e = gh s e.
+
+Lemma flush_bal : forall n r sched s s', Inv n s -> par s r = r -> r < n -> Bal n s ->
+  flush n r sched s = Ok s' -> Bal n s'.
+Proof.
+  intros n r sched s s' I Hr Hrn B H e A. unfold flush in H.
+  destruct (is_perm sched (q s r)) eqn:P; [|discriminate].
+  apply is_perm_perm in P. pose proof (cnt_perm e _ _ P) as CP.
+  set (s0 := set_q s (upd (q s) r [])) in *.
+  assert (I0 : Inv n s0) by exact I.
+  pose proof (dispatch_all_bal _ _ _ _ _ I0 Hr H e A) as D.
+  assert (E0 : tot n s0 e + cnt e (q s r) = tot n s e).
+  { unfold tot, s0. proj. pose proof (qcount_upd n e (q s) r [] Hrn) as E.
+    unfold cnt at 2 in E. simpl in E. lia. }
+  assert (G0 : gh s0 e = gh s e) by reflexivity.
+  specialize (B e A). lia.
+Qed.
+
+Lemma tick1_bal : forall n r sched s s', Inv n s -> r < n -> Bal n s -> tick1 n r sched s = Ok s' -> Bal n s'.
+Proof.
+  intros n r sched s s' I Hr B H. unfold tick1 in H. destruct (q s r).
+  - destruct sched; [inversion H; subst; exact B | discriminate].
+  - eapply flush_bal; [exact I | | | exact B | exact H].
+    + apply (i_rtroot _ _ _ _ _ _ _ _ I).
+    + apply (i_rtlt _ _ _ _ _ _ _ _ I). exact Hr.
+Qed.
+
+Lemma ticks_bal : forall n r scheds s s', Inv n s -> r < n -> Bal n s -> ticks n r scheds s = Ok s' -> Bal n s'.
+Proof.
+  intros n r. induction scheds as [|sc t IH]; intros s s' I Hr B H; simpl in H.
+  - inversion H; subst; exact B.
+  - destruct (tick1 n r sc s) as [s1| | | |] eqn:Ht; try discriminate.
+    eapply IH; [| exact Hr | | exact H]; [eapply tick1_inv | eapply tick1_bal]; eassumption.
+Qed.
+
+Lemma enq_bal_other : forall n x e0 s, isann e0 = false -> Bal n s -> Bal n (enq x e0 s).
+Proof.
+  intros n x e0 s A0 B e A. specialize (B e A). unfold tot, gh in *. proj.
+  rewrite qcount_enq_other; [exact B|]. destruct e, e0; simpl in *; congruence.
+Qed.
+
+Lemma register_bal : forall n c p s s', Inv n s -> Bal n s -> register n c p s = Ok s' -> Bal n s'.
+Proof.
+  intros n c p s s' I B H e A.
+  destruct (register_queue _ _ _ _ _ I H) as [Hrc _].
+  destruct (register_ok _ _ _ _ _ H) as [Hc [Hp [Hdet [Hnp [Hout [Hcp [f [Hu E]]]]]]]].
+  assert (HR : rt s p < n) by (apply (i_rtlt _ _ _ _ _ _ _ _ I); exact Hp).
+  rewrite E in Hrc |- *. proj_in Hrc. specialize (B e A). unfold tot, gh in *. proj. rewrite Hrc.
+  set (q1 := upd (q s) (rt s p) (q s (rt s p) ++ q s c)).
+  set (q2 := upd q1 c []).
+  assert (E1 : qcount n q1 e = qcount n (q s) e + cnt e (q s c)).
+  { pose proof (qcount_upd n e (q s) (rt s p) (q s (rt s p) ++ q s c) HR) as X. rewrite cnt_app in X. unfold q1. lia. }
+  assert (E2 : qcount n q2 e + cnt e (q s c) = qcount n q1 e).
+  { pose proof (qcount_upd n e q1 c [] Hc) as X. unfold q1 at 2 in X.
+    rewrite upd_other in X by (intro Y; apply Hout; symmetry; exact Y).
+    unfold cnt at 2 in X. simpl in X. unfold q2. lia. }
+  destruct (ev_eqb e (Registered c p)) eqn:Ee.
+  - apply ev_eqb_eq in Ee. subst e. rewrite qcount_enq_same by exact HR.
+    unfold cntp at 1. simpl. rewrite !Nat.eqb_refl. simpl. fold (cntp c p (regd s)). simpl in B. lia.
+  - rewrite qcount_enq_other by exact Ee.
+    destruct e as [|a b| | | |]; simpl in A; try discriminate; simpl in B |- *; [|lia].
+    unfold cntp at 1. simpl. simpl in Ee. rewrite Ee. fold (cntp a b (regd s)). lia.
+Qed.
+
+Lemma step_bal : forall n o s s', Inv n s -> Bal n s -> step n o s = Ok s' -> Bal n s'.
+Proof.
+  intros n o s s' I B H. destruct o as [c p|c|x i|r scheds|x sched]; simpl in H.
+  - eapply register_bal; eassumption.
+  - unfold unregister in H. destruct (c <? n); [|discriminate].
+    destruct (par s c =? c); [discriminate|]. cbn [andb negb] in H.
+    destruct (pend s c); inversion H; subst; [exact B|]. apply enq_bal_other; [reflexivity | exact B].
+  - destruct (x <? n); [|discriminate]. inversion H; subst. apply enq_bal_other; [reflexivity | exact B].
+  - destruct (r <? n) eqn:L; [|discriminate]. destruct (par s r =? r); [|discriminate].
+    apply Nat.ltb_lt in L. cbn [andb] in H. eapply ticks_bal; [exact I | exact L | exact B | exact H].
+  - destruct (x <? n) eqn:L; [|discriminate]. apply Nat.ltb_lt in L.
+    eapply flush_bal; [exact I | | | exact B | exact H].
+    + apply (i_rtroot _ _ _ _ _ _ _ _ I).
+    + apply (i_rtlt _ _ _ _ _ _ _ _ I). exact L.
+Qed.
+
+Lemma run_bal : forall n h s s', Inv n s -> Bal n s -> run n h s = Ok s' -> Bal n s'.
+Proof.
+  intros n. induction h as [|o t IH]; intros s s' I B H; simpl in H.
+  - inversion H; subst; exact B.
+  - destruct (step n o s) as [s1| | | |] eqn:Hs; try discriminate.
+    eapply IH; [| | exact H]; [eapply step_inv | eapply step_bal]; eassumption.
+Qed.
+
+Lemma bal_init : forall n, Bal n init.
+Proof.
+  intros n e A. unfold tot, gh, qcount, qsum, dcount, init; simpl.
+  assert (Z : forall l, list_sum (map (fun _ : nat => cnt e []) l) = 0).
+  { induction l; simpl; [reflexivity | exact IHl]. }
+  rewrite Z. destruct e; reflexivity.
+Qed.
+
+(* the ghost list of registrations is the list of register ops of the history *)
+Lemma dispatch_all_regd : forall n r sched s s', Inv n s -> par s r = r ->
+  dispatch_all n r sched s = Ok s' -> regd s' = regd s.
+Proof.
+  intros n r. induction sched as [|e0 t IH]; intros s s' I Hr H; simpl in H.
+  - inversion H; reflexivity.
+  - destruct (dispatch n r e0 s) as [s1| | | |] eqn:Hd; try discriminate.
+    destruct (dispatch_inv _ _ _ _ _ I Hr Hd) as [I1 Hr1].
+    rewrite (IH _ _ I1 Hr1 H).
+    destruct (dispatch_shape _ _ _ _ _ I Hr Hd) as [s2 [d [_ [_ [R [_ [_ [_ C]]]]]]]].
+    destruct e0 as [i|a b|a b|a|a|].
+    5:{ destruct C as [C| ->]; [|exact R]. rewrite (complete_regd _ _ _ _ C). exact R. }
+    all: rewrite C; exact R.
+Qed.
+
+Lemma step_regd : forall n o s s' c p, Inv n s -> step n o s = Ok s' ->
+  cntp c p (regd s') = cntp c p (regd s) + count_reg c p [o].
+Proof.
+  intros n o s s' c p I H. destruct o as [a b|a|x i|r scheds|x sched]; simpl in H |- *.
+  - destruct (register_ok _ _ _ _ _ H) as [_ [_ [_ [_ [_ [_ [f [_ ->]]]]]]]]. proj.
+    unfold cntp. simpl. destruct ((c =? a) && (p =? b)); simpl; lia.
+  - unfold unregister in H. destruct (a <? n); [|discriminate].
+    destruct (par s a =? a); [discriminate|]. cbn [andb negb] in H.
+    destruct (pend s a); inversion H; subst; proj; lia.
+  - destruct (x <? n); [|discriminate]. inversion H; subst. proj. lia.
+  - destruct ((r <? n) && (par s r =? r)); [|discriminate].
+    assert (X : forall scheds s s', Inv n s -> ticks n r scheds s = Ok s' -> regd s' = regd s).
+    { induction scheds0 as [|sc t IH]; intros s0 s0' I0 H0; simpl in H0; [inversion H0; reflexivity|].
+      destruct (tick1 n r sc s0) as [s1| | | |] eqn:Ht; try discriminate.
+      rewrite (IH _ _ (tick1_inv _ _ _ _ _ I0 Ht) H0).
+      unfold tick1 in Ht. destruct (q s0 r).
+      - destruct sc; [inversion Ht; reflexivity | discriminate].
+      - unfold flush in Ht. destruct (is_perm sc (q s0 (rt s0 r))); [|discriminate].
+        eapply (dispatch_all_regd _ _ _ (set_q s0 (upd (q s0) (rt s0 r) []))); [exact I0 | | exact Ht].
+        apply (i_rtroot _ _ _ _ _ _ _ _ I0). }
+    rewrite (X _ _ _ I H). lia.
+  - destruct (x <? n); [|discriminate]. unfold flush in H.
+    destruct (is_perm sched (q s (rt s x))); [|discriminate].
+    rewrite (dispatch_all_regd _ _ _ (set_q s (upd (q s) (rt s x) [])) _ I (i_rtroot _ _ _ _ _ _ _ _ I x) H). proj. lia.
+Qed.
+
+Lemma run_regd : forall n h s s' c p, Inv n s -> run n h s = Ok s' ->
+  cntp c p (regd s') = cntp c p (regd s) + count_reg c p h.
+Proof.
+  intros n. induction h as [|o t IH]; intros s s' c p I H; simpl in H.
+  - inversion H; subst. simpl. lia.
+  - destruct (step n o s) as [s1| | | |] eqn:Hs; try discriminate.
+    rewrite (IH _ _ c p (step_inv _ _ _ _ I Hs) H). rewrite (step_regd _ _ _ _ c p I Hs).
+    destruct o; simpl; lia.
+Qed.
+
+(* ------------------------------------------------------------------ lifted to histories *)
+
+Lemma run_inv0 : forall n h s, run n h init = Ok s -> Inv n s.
+Proof. intros n h s H. eapply run_inv; [apply inv_init | exact H]. Qed.
+
+Lemma run_forest : forall n h s, run n h init = Ok s -> forest s.
+Proof. intros n h s H. eapply inv_forest. eapply run_inv0; exact H. Qed.
+
+Lemma run_subtree_reading : forall n h s c p, run n h init = Ok s -> par s c = c ->
+  (rt s p = c <-> desc (kid s) c p).
+Proof. intros n h s c p H. eapply inv_subtree_reading. eapply run_inv0; exact H. Qed.
+
+Lemma run_pending_attached : forall n h s c, run n h init = Ok s -> pend s c = true -> par s c <> c.
+Proof. intros n h s c H. eapply inv_pending_attached. eapply run_inv0; exact H. Qed.
+
+Lemma run_deliveries : forall n h s d, run n h init = Ok s -> In d (disp s) -> d_ok d = true.
+Proof. intros n h s d H. apply (i_disp _ _ _ _ _ _ _ _ (run_inv0 _ _ _ H)). Qed.
+
+Lemma run_detach_connected : forall n h s c s', run n h init = Ok s -> complete n c s = Ok s' ->
+  par s' c = c /\ pend s' c = false /\ kid s' (par s c) c = false /\
+  (forall x, desc (kid s) c x ->
+     rt s' x = c /\ desc (kid s') c x /\ (x <> c -> par s' x = par s x /\ kid s' (par s x) x = kid s (par s x) x)) /\
+  (forall x, ~ desc (kid s) c x -> rt s' x = rt s x /\ par s' x = par s x).
+Proof. intros n h s c s' H. apply detach_connected. eapply run_inv0; exact H. Qed.
+
+Lemma run_move_connected : forall n h s c p s', run n h init = Ok s -> register n c p s = Ok s' ->
+  par s' c = p /\ kid s' p c = true /\
+  (forall x, desc (kid s) c x ->
+     rt s' x = rt s p /\ desc (kid s') c x /\ (x <> c -> par s' x = par s x /\ kid s' (par s x) x = kid s (par s x) x)) /\
+  (forall x, ~ desc (kid s) c x -> rt s' x = rt s x /\ par s' x = par s x).
+Proof. intros n h s c p s' H. apply move_connected. eapply run_inv0; exact H. Qed.
+
+Lemma run_register_queue : forall n h s c p s', run n h init = Ok s -> register n c p s = Ok s' ->
+  rt s' c = rt s p /\
+  q s' (rt s p) = q s (rt s p) ++ q s c ++ [Registered c p] /\
+  q s' c = [] /\
+  (forall x, x <> c -> x <> rt s p -> q s' x = q s x).
+Proof. intros n h s c p s' H. apply register_queue. eapply run_inv0; exact H. Qed.
+
+Lemma run_announce_registered : forall n h s c p, run n h init = Ok s ->
+  qcount n (q s) (Registered c p) + dcount (disp s) (Registered c p) = count_reg c p h.
+Proof.
+  intros n h s c p H.
+  pose proof (run_bal _ _ _ _ (inv_init n) (bal_init n) H (Registered c p) eq_refl) as B.
+  pose proof (run_regd _ _ _ _ c p (inv_init n) H) as R.
+  unfold tot, gh in B. simpl in R. rewrite B, R. reflexivity.
+Qed.
+
+Lemma run_announce_unregistered : forall n h s c p, run n h init = Ok s ->
+  qcount n (q s) (Unregistered c p) + dcount (disp s) (Unregistered c p) = cntp c p (unregd s).
+Proof.
+  intros n h s c p H.
+  exact (run_bal _ _ _ _ (inv_init n) (bal_init n) H (Unregistered c p) eq_refl).
 Qed.
